@@ -40,7 +40,7 @@ LOCK = threading.Lock()
 FACTS = {}      # case id -> {"inits": [...serials], "creator_calls": n, "refs": {serial: weakref}}
 
 
-def make_class(cid, shape, mode, creator_script):
+def make_class(cid, shape, mode, creator_script, via_subclass=False):
     import Pyro5.api as api
     facts = FACTS[cid] = {"inits": [], "creator_calls": 0, "refs": {}, "notes": {}}
 
@@ -93,6 +93,9 @@ def make_class(cid, shape, mode, creator_script):
                 return type("Special" + base.__name__, (base,), {})()
             return (clazz if clazz is not None else C)()
     C = api.behavior(instance_mode=mode, instance_creator=creator)(C)
+    if via_subclass:
+        # what gets registered is a subclass that adds nothing of its own: it inherits the declared instance mode and creator
+        C = type("Derived" + C.__name__, (C,), {})
     return C
 
 
@@ -115,6 +118,7 @@ def h_case():
                             st.lists(st.sampled_from(["ok", "ok", "subclass", "raise", "wrongtype", "typeerror"]), min_size=1, max_size=4)),
         "hook_raises": st.integers(0, 4).map(lambda n: n == 0),
         "close2": st.integers(0, 5).map(lambda n: n == 0),
+        "via_subclass": st.integers(0, 4).map(lambda n: n == 0),
         "steps": st.lists(step, min_size=1, max_size=14),
         "ser": st.sampled_from(["serpent", "marshal", "json", "msgpack"]),
     })
@@ -151,7 +155,7 @@ def run_h(case, servertype, keep):
 
     def viol(sig, what):
         V.append(Violation("C09:" + sig, ("[%s] %s  case=%r" % (servertype, what, case))[:900]))
-    C = make_class(cid, case["shape"], case["mode"], case["creator"])
+    C = make_class(cid, case["shape"], case["mode"], case["creator"], via_subclass=bool(case.get("via_subclass")))
     facts = FACTS[cid]
     srv.daemon.v_hook_raises = bool(case.get("hook_raises"))      # an application disconnect hook that fails must not keep session instances alive
     oid = "inst%d" % cid
@@ -539,7 +543,7 @@ def _h_nontrivial(case):
 def _h_labels(case):
     return ["H", "mode:" + case["mode"], "shape:" + case["shape"],
             "creator:" + ("none" if case["creator"] is None else "failing" if any(a not in ("ok", "subclass") for a in case["creator"]) else "ok")] + (
-                ["creator-returns-subclass-instance"] if case["creator"] and "subclass" in case["creator"] else []) + (["disconnect-hook-raises"] if case.get("hook_raises") else [])
+                ["creator-returns-subclass-instance"] if case["creator"] and "subclass" in case["creator"] else []) + (["disconnect-hook-raises"] if case.get("hook_raises") else []) + (["registered-class-inherits-its-behavior"] if case.get("via_subclass") else [])
 
 
 def SHARDS(tier):
